@@ -73,9 +73,9 @@ pub fn run(args: &Args) -> i32 {
     let run_item = |i: usize| {
         let (base, prefix) = &items[i];
         let mut prog = prefix.clone();
-        // a prefix of length 2 owns all its extensions up to depth; programs are not
-        // extended past an operation the implementation rejected (it may have left
-        // a transaction open, so the nesting the harness tracks would be wrong)
+        // a prefix of length 2 owns all its extensions up to depth; programs are also
+        // extended past an operation the implementation rejected (a rejected operation
+        // must not leave a transaction open); only a panic ends a program
         let extendable = run_program(&ctx, *base, &prog, &scratch);
         if prefix.len() == 2 && extendable {
             extend(&ctx, *base, &mut prog, depth, &alpha, &scratch);
@@ -169,9 +169,10 @@ fn run_program(ctx: &Ctx, base: Base, ops: &[SOp], scratch: &Scratch) -> bool {
             }
         }
         for op in &ops[..ops.len() - 1] {
-            if apply(&mut p, *op, base.slots(), tag, &mut stack).is_err() {
-                return false; // covered as the last step of the shorter program
-            }
+            // a rejected operation (covered as the last step of the shorter program) must leave
+            // the nesting as it was: the program goes on, and what later completes as an
+            // outermost transaction must be durable
+            let _ = apply(&mut p, *op, base.slots(), tag, &mut stack);
             tag += 1;
             if stack.is_empty() {
                 committed = std::fs::read(&f).unwrap();
@@ -237,7 +238,7 @@ fn run_program(ctx: &Ctx, base: Base, ops: &[SOp], scratch: &Scratch) -> bool {
         }
         let expect = Expect { prev: &committed, new: None };
         crash_sweep(ctx, &pre, &events, &expect, scratch, last_kind, if stack.is_empty() { "drop" } else { "drop_open_tx" }, &replay);
-        res.is_ok()
+        true
     });
     match r {
         Ok(extendable) => extendable,
